@@ -45,15 +45,16 @@ Theorem C13_caches_ignore_script_witness : forall t spent i w,
   compute_taproot pt_ok maxvec H (set_script_witness t i w) spent = compute_taproot pt_ok maxvec H t spent.
 Proof. intros. split; [apply compute_common_witness|apply compute_taproot_witness]. Qed.
 
-(* For every taproot hash type that includes ANYONECANPAY — except the class of finding F11 — supplying only the spent output of
-   the input being signed gives the same pre-image, the same digest and the same resulting cache state as supplying all of them.
-   FULL STATEMENT (false on the current tree, see C13_acp_one_refuted): the same without `F11_known ty = false`. *)
+(* For EVERY taproot hash type that includes ANYONECANPAY (ALL|ACP, NONE|ACP, SINGLE|ACP), supplying only the spent output of the
+   input being signed gives the same pre-image, the same digest and the same resulting cache state as supplying all of them —
+   in every cache state.  (Finding F11 — ALL|ANYONECANPAY failed with PrevoutKind — was repaired by 539d5ee: the output-witness
+   hash now lives in the common cache.) *)
 Theorem C13_acp_one : forall s spent idx o annex leaf ty g,
-  schnorr_acp ty = true -> F11_known ty = false ->
+  schnorr_acp ty = true ->
   length spent = length (tx_in (st_tx s)) -> nth_error spent idx = Some o ->
   taproot_encode idx (POne idx o) annex leaf ty g s = taproot_encode idx (PAll spent) annex leaf ty g s /\
   taproot_sighash idx (POne idx o) annex leaf ty g s = taproot_sighash idx (PAll spent) annex leaf ty g s.
-Proof. intros. assert (E := acp_one_eq_all pt_ok maxvec H s spent idx o annex leaf ty g H0 H1 H2 H3). split; [exact E|].
+Proof. intros. assert (E := acp_one_eq_all pt_ok maxvec H s spent idx o annex leaf ty g H0 H1 H2). split; [exact E|].
   unfold SighashImpl.taproot_sighash, mapM, bind. now rewrite E. Qed.
 
 (* a single spent output for a type that needs all of them is reported as an error — in every cache state *)
@@ -61,24 +62,18 @@ Theorem C13_need_all : forall s idx j o annex leaf ty g, schnorr_acp ty = false 
   snd (taproot_encode idx (POne j o) annex leaf ty g s) = SErr PrevoutKind.
 Proof. exact (need_all pt_ok maxvec H). Qed.
 
-(* finding F11: SIGHASH_ALL|ANYONECANPAY with Prevouts::One fails with PrevoutKind in every state, for every transaction,
-   because the output-witness hash is kept in the all-prevouts taproot cache ... *)
-Theorem C13_F11_all_acp_one_always_fails : forall s idx j o annex leaf g,
-  snd (taproot_encode idx (POne j o) annex leaf SAllAcp g s) = SErr PrevoutKind.
-Proof. exact (acp_all_one_fails pt_ok maxvec H). Qed.
 End C13.
 
-(* ... while Prevouts::All succeeds: the unrestricted C13_acp_one is refuted (witness: one plain input, no outputs, index 0) *)
+(* sample values for the non-vacuity examples *)
 Definition f11_in : txin := {| in_prev := {| o_txid := repeat x11 32; o_vout := 0 |}; in_pegin := false; in_script := []; in_seq := 4294967295;
   in_iss := null_issuance; in_wit := empty_inwit |}.
 Definition f11_tx : tx := {| tx_version := 2; tx_lock := 0; tx_in := [f11_in]; tx_out := [] |}.
 Definition f11_spent : txout := {| out_asset := AExplicit (repeat x33 32); out_value := VExplicit 5; out_nonce := NNull; out_script := [x51]; out_wit := empty_outwit |}.
-Theorem C13_acp_one_refuted : forall pt_ok maxvec H,
-  exists s spent idx o annex leaf ty g,
-    schnorr_acp ty = true /\ length spent = length (tx_in (st_tx s)) /\ nth_error spent idx = Some o /\
-    snd (taproot_encode pt_ok maxvec H idx (POne idx o) annex leaf ty g s) <> snd (taproot_encode pt_ok maxvec H idx (PAll spent) annex leaf ty g s).
-Proof. intros. exists (init f11_tx), [f11_spent], 0%nat, f11_spent, None, None, SAllAcp, (repeat x00 32).
-  repeat split. rewrite acp_all_one_fails. vm_compute. discriminate. Qed.
+(* the former F11 witness: ALL|ANYONECANPAY with One now succeeds and equals All (an instance of C13_acp_one that is not an error) *)
+Example C13_former_F11_witness : forall pt_ok maxvec H,
+  exists m, snd (taproot_encode pt_ok maxvec H 0 (POne 0 f11_spent) None None SAllAcp (repeat x00 32) (init f11_tx)) = SOk m /\
+            snd (taproot_encode pt_ok maxvec H 0 (PAll [f11_spent]) None None SAllAcp (repeat x00 32) (init f11_tx)) = SOk m.
+Proof. intros. eexists. split; vm_compute; reflexivity. Qed.
 
 (* non-vacuity: a sequence mixing all operation kinds satisfies the hypothesis, and a state with all three caches filled
    satisfies the invariant *)
@@ -98,18 +93,14 @@ Check (C13_coherent : forall pt_ok maxvec H Htag spent t ops,
   Forall (consistent_prevouts spent) ops ->
   run pt_ok maxvec H Htag (init t) ops = fresh_answers pt_ok maxvec H Htag t ops).
 Check (C13_acp_one : forall pt_ok maxvec H Htag s spent idx o annex leaf ty g,
-  schnorr_acp ty = true -> F11_known ty = false -> length spent = length (tx_in (st_tx s)) -> nth_error spent idx = Some o ->
+  schnorr_acp ty = true -> length spent = length (tx_in (st_tx s)) -> nth_error spent idx = Some o ->
   taproot_encode pt_ok maxvec H idx (POne idx o) annex leaf ty g s = taproot_encode pt_ok maxvec H idx (PAll spent) annex leaf ty g s /\
   taproot_sighash pt_ok maxvec H Htag idx (POne idx o) annex leaf ty g s = taproot_sighash pt_ok maxvec H Htag idx (PAll spent) annex leaf ty g s).
 Check (C13_need_all : forall pt_ok maxvec H s idx j o annex leaf ty g, schnorr_acp ty = false ->
   snd (taproot_encode pt_ok maxvec H idx (POne j o) annex leaf ty g s) = SErr PrevoutKind).
-Check (C13_acp_one_refuted : forall pt_ok maxvec H, exists s spent idx o annex leaf ty g,
-  schnorr_acp ty = true /\ length spent = length (tx_in (st_tx s)) /\ nth_error spent idx = Some o /\
-  snd (taproot_encode pt_ok maxvec H idx (POne idx o) annex leaf ty g s) <> snd (taproot_encode pt_ok maxvec H idx (PAll spent) annex leaf ty g s)).
 Check (C13_caches_ignore_script_witness : forall pt_ok maxvec H t spent i w,
   compute_common pt_ok maxvec H (set_script_witness t i w) = compute_common pt_ok maxvec H t /\
   compute_taproot pt_ok maxvec H (set_script_witness t i w) spent = compute_taproot pt_ok maxvec H t spent).
 Print Assumptions C13_coherent.
 Print Assumptions C13_acp_one.
 Print Assumptions C13_need_all.
-Print Assumptions C13_acp_one_refuted.
